@@ -8,10 +8,10 @@ cd $wt || exit 2
 git checkout -q -- . ; git clean -fdq -e MUTATION
 pk=$(go list ./... | grep -v /MUTATION)
 cp MUTATION/demo${n}_test.go $dir/zz_demo_test.go
-clean=$(go test -vet=off -count=1 ./$dir/ 2>&1 | tail -1)
+clean=$(go test $TAGS -vet=off -count=1 ./$dir/ 2>&1 | tail -1)
 git apply MUTATION/patch$n.diff || { echo "patch does not apply"; rm -f $dir/zz_demo_test.go; exit 2; }
 build=$(go build ./... 2>&1 | tail -1)
-withp=$(go test -vet=off -count=1 ./$dir/ 2>&1 | tail -1)
+withp=$(go test $TAGS -vet=off -count=1 ./$dir/ 2>&1 | tail -1)
 rm -f $dir/zz_demo_test.go
 suite=$(go test -vet=off -count=1 $pk 2>&1 | grep -v "no test files" | grep -vc "^ok")
 git checkout -q -- . ; git clean -fdq -e MUTATION
